@@ -181,7 +181,7 @@ def const_values(d):
         if s["exprs"]:
             inh = s["exprs"]
         for k, n in enumerate(s["names"]):
-            if len(inh) == len(s["names"]):
+            if k < len(inh):      # go/types assigns the expressions in force position by position
                 a, b = inh[k]
                 vals[(j, k)] = str(a * j + b)
             else:
@@ -408,7 +408,7 @@ class Gen:
         params = p[0]
         if generic:
             tp = "[T any]"
-            params = "(x T)" if params == "()" else params[:-1] + ", x T)"
+            params = "(gx T)" if params == "()" else params[:-1] + ", gx T)"
         return tp, params, r[0], list(p[1]) + list(r[1])
 
     def func(self, side, avail, recv=None, name=None, generic=None, stable=False):
@@ -636,7 +636,11 @@ def gen_case(rng, mode):
                     recv["ptr"] = not recv["ptr"]
                 if r < 0.45:
                     continue
-                o = g.func("v", ["pkga", "b"], recv=recv, name=d["name"], generic=(d["tp"] != "" and rng.random() < 0.5))
+                oavail = ["pkga", "b"]
+                if r >= 0.85 and consistent:
+                    # a new signature may only use imports the original file already has (doc/pargma.md)
+                    oavail = [x for x in f["avail"] if x in [i["name"] or base(i["path"]) for i in f["imports"]]]
+                o = g.func("v", oavail, recv=recv, name=d["name"], generic=(d["tp"] != "" and rng.random() < 0.5))
                 if r < 0.65:
                     g.features.add("func-replace" if not recv else "method-replace")
                 elif r < 0.77:
@@ -764,7 +768,7 @@ def gen_case(rng, mode):
         for d in decls:
             used |= decl_uses(d, lambda s, n: True)
         imps = [dict(PKGS[c]) for c in PKGS if c in used]
-        if rng.random() < 0.15:
+        if rng.random() < 0.15 and decls:
             imps.append({"name": "_", "path": "fake/pkgc"})
         ov_files.append({"imports": imps, "decls": decls, "import_group": rng.random() < 0.3})
         if not decls and not imps:
